@@ -78,6 +78,11 @@ func (transScenario) Build(cfg string) ([]func(), func(*vsched.Sched) []string) 
 		c.OpenCircuit(context.Background())
 		rec.log = nil
 	}
+	if cfgInt(cfg, "fo0") == 1 { // the kill switch is ON when the race starts (somebody may switch it off: 'Z')
+		conf := c.Config()
+		conf.General.ForceOpen = true
+		c.SetConfigThreadSafe(conf)
+	}
 	nameVars(c, "c")
 	var bodies []func()
 	for _, op := range cfgStr(cfg, "ops") {
@@ -94,6 +99,18 @@ func (transScenario) Build(cfg string) ([]func(), func(*vsched.Sched) []string) 
 			bodies = append(bodies, func() {
 				conf := c.Config()
 				conf.General.ForceOpen = true
+				c.SetConfigThreadSafe(conf)
+			})
+		case 'Z':
+			bodies = append(bodies, func() {
+				conf := c.Config()
+				conf.General.ForceOpen, conf.General.ForcedClosed = false, false
+				c.SetConfigThreadSafe(conf)
+			})
+		case 'Y':
+			bodies = append(bodies, func() {
+				conf := c.Config()
+				conf.General.ForcedClosed = true
 				c.SetConfigThreadSafe(conf)
 			})
 		}
@@ -115,9 +132,9 @@ func (transScenario) Build(cfg string) ([]func(), func(*vsched.Sched) []string) 
 		if len(rec.log) > 0 {
 			last = rec.log[len(rec.log)-1] == "O"
 		}
-		if strings.Contains(cfgStr(cfg, "ops"), "X") { // judge the underlying state: clear the override first
+		if strings.ContainsAny(cfgStr(cfg, "ops"), "XYZ") || cfgInt(cfg, "fo0") == 1 { // judge the underlying state: clear the override first
 			conf := c.Config()
-			conf.General.ForceOpen = false
+			conf.General.ForceOpen, conf.General.ForcedClosed = false, false
 			c.SetConfigThreadSafe(conf)
 		}
 		if c.IsOpen() != last {
